@@ -323,6 +323,13 @@ def hist_www(W, ops, prng):
             elif op == "set_params":
                 w.parameters = {"k": "v"}
                 pr = {"k": "v"}
+            elif op == "set_params_from_other_view":
+                # the parameters of another challenge object (a live mapping with its own callback) assigned as a whole:
+                # from then on they are this view's parameters
+                other = W["WWWAuthenticate"]("basic", {"realm": "other", "k": "o"}) if "WWWAuthenticate" in W else None
+                if other is not None:
+                    w.parameters = other.parameters
+                    pr = {"realm": "other", "k": "o"}
             elif op == "params_dict_set":
                 w.parameters["z"] = "1"
                 pr["z"] = "1"
@@ -358,7 +365,7 @@ def hist_www(W, ops, prng):
 
 
 WWW_OPS = ["assign", "assign_token", "set_param_item", "set_param_attr", "del_param", "del_attr", "set_type", "set_type_case", "set_token", "set_params", "none_item", "delete", "direct", "reget",
-           "params_dict_set", "params_pop"]
+           "params_dict_set", "params_pop", "set_params_from_other_view"]
 
 
 def hist_csp(W, ops, prng):
@@ -435,6 +442,9 @@ def hist_content_range(W, ops, prng):
                 setattr(prev, a, getattr(prev, a))
                 cr = prev
                 m = (cr.units, cr.start, cr.stop, cr.length)
+        elif op == "reget":
+            # the view is obtained again (parsed from the header as it stands): mutations go through the new one
+            cr = r.content_range
         elif op == "two_views":
             # two views of the same header; the first one changes it, the second one restates what it holds
             if m and m[1] is not None and (m[2] or 0) <= 30:
@@ -511,7 +521,7 @@ def hist_content_range(W, ops, prng):
 
 
 CR_OPS = ["set", "set_nolen", "set_units", "set_unsat", "set_unsat_zero", "unset", "set_invalid", "attr_len", "attr_start", "attr_stop", "units", "assign_str", "assign_none", "direct",
-          "restate_old", "two_views"]
+          "restate_old", "two_views", "reget", "reget"]
 
 
 def hist_mimetype_params(W, ops, prng):
@@ -718,7 +728,7 @@ def world():
     from werkzeug import datastructures as DS
     from werkzeug.wrappers import Response
 
-    return {"Response": Response, "DS": DS}
+    return {"Response": Response, "DS": DS, "WWWAuthenticate": DS.WWWAuthenticate}
 
 
 def run_one(W, rec, view, ops, pseed):
